@@ -78,10 +78,14 @@ class ConditionalSMCSampler(AbstractSMCSampler):
 
         uniform_weight = -np.log(self.num_particles)
 
-        self.swarm.add_particle(uniform_weight, self.constrained_path[1])
+        particle = self.constrained_path[1]
+
+        self.swarm.add_particle(uniform_weight + self._get_log_w(particle), particle)
 
         for _ in range(self.num_particles - 1):
-            self.swarm.add_particle(uniform_weight, self._propose_particle(None))
+            particle = self._propose_particle(None)
+
+            self.swarm.add_particle(uniform_weight + self._get_log_w(particle), particle)
 
         for particle in self.swarm.particles:
             assert particle.parent_particle is None
